@@ -296,6 +296,17 @@ class Tr:
                 return [], f"(Expr.call {B['newexc']} {self.lst([f'(Expr.lit (Val.cls {EXC_CLASSES[f.id]}))'])})"
             if f.id in self.t.callables and f.id in self.locals:
                 pres, es = [], [f"(Expr.loc {self.locals[f.id]})"]
+                if any(isinstance(a, ast.Starred) for a in n.args) or any(k.arg is None for k in n.keywords):
+                    # `f(*args, **kwargs)`: the argument tuple / dict are handed on as they are
+                    for a in n.args:
+                        if not (isinstance(a, ast.Starred) and isinstance(a.value, ast.Name) and a.value.id in self.locals):
+                            raise Unrecognised("mixed starred call")
+                        es.append(f"(Expr.loc {self.locals[a.value.id]})")
+                    for k in n.keywords:
+                        if not (k.arg is None and isinstance(k.value, ast.Name) and k.value.id in self.locals):
+                            raise Unrecognised("mixed starred call")
+                        es.append(f"(Expr.loc {self.locals[k.value.id]})")
+                    return pres, f"(Expr.call {self.t.callables[f.id]} {self.lst(es)})"
                 if n.keywords:
                     raise Unrecognised("keyword arguments to a callable parameter")
                 for a in n.args:
@@ -495,13 +506,20 @@ class Tr:
             hs = "Stmt.noHandler"
             for h in reversed(s.handlers):
                 if h.type is None:
-                    c = 0
+                    cs = [0]
                 elif isinstance(h.type, ast.Name) and h.type.id in EXC_CLASSES:
-                    c = EXC_CLASSES[h.type.id]
+                    cs = [EXC_CLASSES[h.type.id]]
+                elif isinstance(h.type, ast.Tuple) and h.type.elts and all(
+                    isinstance(e, ast.Name) and e.id in EXC_CLASSES for e in h.type.elts
+                ):
+                    # `except (A, B) as e: body` = `except A as e: body` followed by `except B as e: body`
+                    cs = [EXC_CLASSES[e.id] for e in h.type.elts]
                 else:
                     raise Unrecognised(f"handler for {self.src(h.type)}")
                 bind = f"(some {self.local(h.name)})" if h.name else "none"
-                hs = f"(Stmt.handler {c} {bind} {self.stmts(h.body)} {hs})"
+                body = self.stmts(h.body)
+                for c in reversed(cs):
+                    hs = f"(Stmt.handler {c} {bind} {body} {hs})"
             return f"(Stmt.try_ {self.stmts(s.body)} {hs} {self.stmts(s.orelse)} {self.stmts(s.finalbody)})"
         raise Unrecognised(type(s).__name__)
 
@@ -556,6 +574,8 @@ def translate(repo, t: Target) -> tuple[str, dict[str, int]]:
     names = [x.arg for x in a.posonlyargs + a.args + a.kwonlyargs]
     if a.vararg:
         names.append(a.vararg.arg)
+    if a.kwarg:
+        names.append(a.kwarg.arg)
     if names and names[0] in t.self_names:
         names = names[1:]
     if names != t.params:
